@@ -16,6 +16,8 @@ INPUT_DECL = {
     "s": ("decl", "Signal", "s", ("lit", "signal-S", ("int", 0))),
     "x": ("decl", "Signal", "x", ("lit", "signal-X", ("int", 0))),
     "y": ("decl", "Signal", "y", ("lit", "signal-Y", ("int", 0))),
+    "r": ("decl", "Signal", "r", ("lit", "signal-R", ("int", 0))),
+    "e": ("decl", "Signal", "e", ("lit", "signal-E", ("int", 0))),
 }
 DEFAULT = (0, 1, -1, 2, 7, -8, INT_MAX, INT_MIN)
 SHIFT_DOM = (0, 1, 5, 31)
